@@ -149,3 +149,20 @@ package storage
 //@ func (b *WriteBuffer) RecordsFrom
 //@   requires lastsAscending(b.batches) && payloadsNonEmpty(b.batches)
 //@   at recordsFromBatches#1 before assert [C03.recordsfrom_reads_whole_buffer] sameSlice(arg0, b.batches) && arg1 == offset && arg2 == maxBytes
+
+// ---- PartitionLog.Read: which segment a fetch is served from, and when the buffered batches are consulted ----
+// Checked up to the point where the choice is made (the unlock before the cache / S3 access on the segment path; the unlock after the
+// two buffer look-ups otherwise); the byte-range selection that follows is C04's cone (computeSegmentRange etc., clauses C03.range_*).
+// Precondition for the buffer look-ups: the buffered and in-flight batches have non-empty payloads and ascending offsets (C02).
+//@ spec func segHolds(s segmentRange, o int64) bool = o >= s.baseOffset && o <= s.lastOffset
+//@ func (l *PartitionLog) Read
+//@   requires l.buffer != nil && lastsAscending(l.buffer.batches) && payloadsNonEmpty(l.buffer.batches) && lastsAscending(l.flushingBatches) && payloadsNonEmpty(l.flushingBatches)
+//@   loop 1 invariant -1 <= rangeindex && rangeindex < len(l.segments) && !found && segIdx == -1 && offset == old(offset) && held(l.mu)
+//@   loop 1 invariant forall i Int :: {l.segments[i]} 0 <= i && i <= rangeindex ==> !segHolds(l.segments[i], old(offset)) && l.segments[i].baseOffset <= old(offset)
+//@   at Unlock#2 before assert [C03.read_serves_first_matching_segment] found && 0 <= segIdx && segIdx < len(l.segments) && seg == l.segments[segIdx] && (forall i Int :: {l.segments[i]} 0 <= i && i < segIdx ==> !segHolds(l.segments[i], old(offset)) && l.segments[i].baseOffset <= old(offset))
+//@   at Unlock#2 before assert [C03.read_segment_holds_offset_or_is_next] (segHolds(seg, old(offset)) && offset == old(offset)) || (!segHolds(seg, old(offset)) && seg.baseOffset > old(offset) && offset == seg.baseOffset)
+//@   at Unlock#2 before assert [C03.read_uses_index_of_that_segment] len(entries) == len(l.indexEntries[seg.baseOffset]) && (len(entries) > 0 ==> sameSlice(entries, l.indexEntries[seg.baseOffset]))
+//@   at Unlock#2 after stop
+//@   at RecordsFrom#1 before assert [C03.read_buffer_only_when_no_segment_matches] !found && held(l.mu) && arg0 == old(offset) && arg1 == maxBytes && (forall i Int :: {l.segments[i]} 0 <= i && i < len(l.segments) ==> !segHolds(l.segments[i], old(offset)) && l.segments[i].baseOffset <= old(offset))
+//@   at recordsFromBatches#1 before assert [C03.read_flush_window_after_buffer_under_same_lock] held(l.mu) && sameSlice(arg0, l.flushingBatches) && arg1 == old(offset) && arg2 == maxBytes && len(body) == 0
+//@   at Unlock#1 after stop
